@@ -1428,6 +1428,8 @@ def _sort_key(ex, st, clo, cell):
         k = deref(k.fields[0].val)
     if z3.is_bv(k):
         return desc, k
+    if isinstance(k, Obj) and z3.is_bv(k.data.get('sort_rank')):      # an opaque key whose total order the harness models (e.g. a file name)
+        return desc, k.data['sort_rank']
     return None
 
 
@@ -1822,6 +1824,29 @@ def s_map_values(ex, st, call):
 @rule(r'^<.* as Iterator>::collect$', prio=-1)
 def s_collect_known(ex, st, call):
     it = deref(call.args[0])
+    # collect::<Result<Vec<_>, E>>() over items whose Ok/Err variant is concrete: the first Err is returned, otherwise Ok(payloads)
+    into_result = base_name(call.dst_ty) == 'Result' and generic_args(call.dst_ty) and base_name(generic_args(call.dst_ty)[0]) == 'Vec'
+    if into_result:
+        if not isinstance(it, Obj):
+            return NotImplemented
+        if it.kind == 'iter':
+            src = deref(it.data.get('seq'))
+            if it.data.get('adapters') or it.data.get('pos', 0) not in (0, None):
+                return NotImplemented
+        else:
+            src = it
+        its0 = seq_items(src) if isinstance(src, Obj) else None
+        if its0 is None or src.data.get('extended_unknown'):
+            return NotImplemented
+        out = []
+        for c in its0:
+            e = deref(c.val)
+            if not isinstance(e, EnumV) or not isinstance(e.disc, int):
+                return NotImplemented
+            if e.disc != 0:
+                return ex.mk_enum(call.dst_ty, 'Err', [e.payloads['Err'].fields[0].val])
+            out.append(Cell(e.payloads['Ok'].fields[0].val))
+        return ex.mk_enum(call.dst_ty, 'Ok', [mk_seq(generic_args(call.dst_ty)[0], out, 'collected')])
     if not _known_iter(it) or not base_name(call.dst_ty) == 'Vec':
         return NotImplemented
     holder = Obj('', 'h'); holder.fields[0] = Cell(mk_seq(call.dst_ty, [], 'collected'))
